@@ -102,6 +102,16 @@ impl Bind {
     pub(crate) fn is_empty(&self) -> bool {
         self.bound_generics.is_empty()
     }
+
+    /// whether every name bound here is one of `own` (the callee's own generic parameters). Any
+    /// other name is a type parameter of an enclosing generic function, which is opaque inside
+    /// that function's body: it may only be "bound" to itself
+    pub(crate) fn binds_only(&self, own: Option<&Vec<Identifier>>) -> bool {
+        self.bound_generics.iter().all(|(name, bound)| {
+            own.map_or(false, |own| own.contains(name))
+                || matches!(bound.as_ref(), XType::XGeneric(b) if b == name)
+        })
+    }
 }
 
 impl<I> FromIterator<I> for Bind
@@ -281,6 +291,9 @@ impl XFuncSpec {
         let mut ret = Bind::new();
         for (arg, param) in args.iter().zip(self.params.iter()) {
             ret = ret.mix(&param.type_.bind_in_assignment(arg)?)?;
+        }
+        if !ret.binds_only(self.generic_params.as_ref()) {
+            return None;
         }
         Some(ret)
     }
